@@ -48,5 +48,29 @@ def main():
             json.dump(body, handle, indent=1, sort_keys=True, default=str)
 
 
-if __name__ == "__main__":
+if __name__ == "__main__" and len(sys.argv) == 1:
     main()
+
+
+def refresh():
+    """Re-run every stored finding and refresh its recorded digest/detail (after harness changes)."""
+    import glob
+    from checks import trav, common
+    from sim import pool
+    for path in sorted(glob.glob(os.path.join(HERE, "findings", "*.json"))):
+        with open(path) as handle:
+            body = json.load(handle)
+        status, result = pool.run_forked(trav.execute, body["plan"], 300)
+        assert status == "ok", result
+        hits = [v for v in result["violations"] if v["oracle"] == body["oracle"] and v["signature"] == body["signature"]]
+        print(os.path.basename(path), "reproduces" if hits else "DOES NOT REPRODUCE", result["digest"])
+        if hits:
+            body["digest"] = result["digest"]
+            body["detail"] = hits[0]["detail"]
+            body["code_revision"] = common.code_revision()
+            with open(path, "w") as handle:
+                json.dump(body, handle, indent=1, sort_keys=True, default=str)
+
+
+if __name__ == "__main__" and len(sys.argv) > 1 and sys.argv[1] == "refresh":
+    refresh()
